@@ -220,18 +220,24 @@ def check_case(ctx, case):
     selfcheck_pair(t, x)
     selfcheck_pair(s, x)
     names, prefix, suffix = form_pieces(form)
+    # the structure names as spelled in the annotations: T / S, or other identifiers (a leading underscore, digits, non-ASCII)
+    alias = {"plain": {"T": "T", "S": "S"}, "underscore": {"T": "_T", "S": "__s"}, "other": {"T": "Tree2", "S": "größe"}}[case.get("spelling", "plain")]
+
+    def spell(f):
+        return " ".join(alias.get(piece, piece) for piece in f.split())
+
     with jaxtyped("context"):
         structs = {}
         for nm, d, r, bind in (("T", t, rt, case["bind_t"]), ("S", s, rs, case["bind_s"])):
             if not bind:
                 continue
-            got = obs.verdict(r, PyTree[L, nm])
+            got = obs.verdict(r, PyTree[L, spell(nm)])
             al, structs = model_check(structs, nm, d, case['leaf'])
             if got not in al:
                 raise Violation("bind", case, f"binding {nm} to {case[nm.lower()]}: {got}, reference {sorted(al)}")
         for rep in range(2):
             before = obs.bindings()
-            got = obs.verdict(rx, PyTree[L, form])
+            got = obs.verdict(rx, PyTree[L, spell(form)])
             al, structs2 = model_check(structs, form, x, case['leaf'])
             descr = f"form {form!r} leaf={case['leaf']} T={'unbound' if 'T' not in structs else case['t']} S={'unbound' if 'S' not in structs else case['s']} x={case['x']}"
             if got not in al:
@@ -240,13 +246,13 @@ def check_case(ctx, case):
             if got != dl.TRUE and after != before:
                 raise Violation("rollback", case, f"{got} but bindings changed: {before[1]} -> {after[1]}; {descr}")
             structs = structs2
-            if set(after[1]) != set(structs):
+            if set(after[1]) != {alias.get(k, k) for k in structs}:
                 raise Violation("structure-bindings", case, f"structure names listed {sorted(after[1])} != model {sorted(structs)}; {descr}")
     composite = len(form.split()) > 1
     tdepths = occurs_depths(pt.structure(x), pt.structure(t))
     nontrivial = composite and pt.depth(x) >= 2 and (len(tdepths) >= 2 or has_special(x) or has_special(t))
     ctx.note([case["t"], case["s"], case["x"], form, case["bind_t"], case["bind_s"]], nontrivial,
-             classes=[f"form-{form}", f"got-{got}", f"build-{case['how']}", f"mut-{case['nmut']}"]
+             classes=[f"form-{form}", f"got-{got}", f"build-{case['how']}", f"mut-{case['nmut']}", f"spelling-{case.get('spelling', 'plain')}"]
              + (["T-at-2-depths"] if len(tdepths) >= 2 else []) + (["special-node"] if has_special(x) else []),
              sample={"t": case["t"], "s": case["s"], "x": case["x"], "form": form, "verdict": got})
 
@@ -321,6 +327,7 @@ def c09_case(draw):
         "leaf": leaf_kind,
         "bind_t": draw(st.sampled_from([True, True, True, True, False])),
         "bind_s": draw(st.sampled_from([True, True, True, False])),
+        "spelling": draw(st.sampled_from(["underscore", "plain", "plain", "other"])),
     }
 
 
